@@ -281,7 +281,14 @@ def r3_file_header(chk, wh, rh):
         detail.append(f"{f.qualname}:{lit}")
         if not (f.qualname == "UKVFile.open" and lit and set(lit) <= {"x", "w"}):
             ok = False
-    guard = any(isinstance(s, ast.If) and "self.mode" in norm(s.test) for s in wh.node.body)
+    guard = False
+    for s in wh.node.body:
+        if isinstance(s, ast.If) and isinstance(s.test, ast.Compare) and norm(s.test.left) == "self.mode" and isinstance(s.test.ops[0], ast.In):
+            try:
+                lits = set(chk.prog.const_eval(wh.module, s.test.comparators[0]))
+            except AnalysisError:
+                lits = {"?"}
+            guard = lits <= {"w", "x"} and any(calls_named(b, {"self._pack_write", "_FILE_HEADER.pack"}) for b in s.body)
     chk.decide(bool(sites) and (ok or guard), "C02.R3", f"{UKV}:write_header:callers", wh.where(),
                f"called from {detail}; mode guard in write_header: {guard}",
                f"write_header is reachable outside the creating modes: {detail}")
@@ -526,7 +533,7 @@ def r6_append_only(chk, put, wh, mapb):
     chk.ok("C02.R6", f"{UKV}:UKVFile:index-mutation", f"{m.relpath}:{ukv.node.lineno}", "index entries are stored only by put / map_blocks and never deleted")
     # put's own store is guarded by the duplicate test (no replacement)
     st = [s for s in walk_no_nested(put.node) if isinstance(s, ast.Assign) and "self._toc[]" in stored_paths(s)]
-    chk.require(len(st) == 1, "put: expected exactly one index store")
-    sub = [t for t in st[0].targets if isinstance(t, ast.Subscript)][0]
-    chk.decide(norm(sub.slice) == "key", "C02.R6", f"{put.key}:index-store-key", put.where(st[0]), "indexes under the put key",
-               f"put stores the record under {norm(sub.slice)}, not under the key")
+    chk.require(len(st) >= 1, "put: no index store")
+    subs = [t for s_ in st for t in s_.targets if isinstance(t, ast.Subscript)]
+    chk.decide(all(norm(sub.slice) == "key" for sub in subs), "C02.R6", f"{put.key}:index-store-key", put.where(st[0]), "indexes under the put key",
+               f"put stores the record under {[norm(sub.slice) for sub in subs]}, not under the key")
